@@ -24,19 +24,19 @@ CLAIMED = {
         note="Trusted: Lean kernel + standard axioms, hand-written cache model (tied by the cache-off differential and the site-history programs), cache-off hook; REPL cache replacement is C19's known finding D13",
         technique="Lean 4 history-transparency proof of the cache state machines + cache-off differential and site-history streams"),
     "C14": dict(
-        text="Lean theorems over all 2^64 bit patterns with constants and method bodies regenerated from value.rs: round-trip, injectivity, class disjointness, kind/test agreement, arithmetic NaNs are numbers, equality agreement outside the exactly stated excluded set (and real difference on it), hash consistency; witnesses for D8; value engine in both builds vs model and Spec on boundary patterns; generated programs and the fixture corpus diffed across both builds",
+        text="Lean theorems over all 2^64 bit patterns with constants and method bodies regenerated from value.rs: round-trip, injectivity, class disjointness, kind/test agreement, arithmetic NaNs are numbers, the collector dereferences exactly the object-tagged patterns (boxed Value::trace regenerated), equality agreement outside the exactly stated excluded set (and real difference on it), hash consistency; witnesses for D8; value engine in both builds vs model and Spec on boundary patterns; generated programs, object-zoo programs under a collection at every allocation and the fixture corpus diffed across both builds",
         note="Trusted: Lean kernel + standard axioms, gen_nanbox translator (typed expression translation of value.rs), harness built in both feature configurations; IEEE semantics of f64 shared by Rust and Lean Float for the spec cross-check",
         technique="Lean 4 proofs over BitVec/Nat bit patterns with generated definitions + two-build differential streams"),
     "C11": dict(
-        text="Lean theorems unbounded in length/index/history: index normalisation iff-characterisation, slices = drop/take with clamped bounds, every list operation sequence (incl. capacity-crossing relocations) refines the List operations with no write outside the allocation and failing ops leaving the receiver unchanged, tuples, strings by character, maps refine finite maps, iterator sources/terminals/adaptors equal the stream functions with callbacks left to right and short circuits; generated signature table; op sequences per receiver kind rendered for the Lean model/Spec engines and as Laythe programs, exhaustive boundary indices for lengths 0-4, multi-byte strings, raising/mutating callbacks, GC schedules",
-        note="Trusted: Lean kernel + standard axioms, gen_coll_signatures translator, hand-written native models (tied by the streams); split characterisation, n-ary zip/chain, until and sort are not proved; six known findings (D40-D45)",
+        text="Lean theorems unbounded in length/index/history: index normalisation iff-characterisation, slices = drop/take with clamped bounds, every list operation sequence (incl. capacity-crossing relocations) refines the List operations with no write outside the allocation for every capacity including 0 and failing ops leaving the receiver unchanged, remove/insert reject every non-integer index, sort is a sorted permutation or returns exactly the comparator's failure, iterator-typed parameters reject non-iterators, tuples, strings by character, maps refine finite maps, iterator sources/terminals/adaptors equal the stream functions with callbacks left to right and short circuits; generated signature table, parameter-kind validity and guard texts; op sequences per receiver kind rendered for the Lean model/Spec engines and as Laythe programs, exhaustive boundary indices for lengths 0-4, multi-byte strings, raising/mutating callbacks, GC schedules",
+        note="Trusted: Lean kernel + standard axioms, gen_coll_signatures translator, hand-written native models (tied by the streams); split characterisation, n-ary zip/chain, until and sort stability are not proved; known findings D41, D44 (D40, D42, D43, D45 repaired in /repo)",
         technique="Lean 4 refinement proofs of collection natives against List/finite-map/stream specifications + model/Spec/implementation op-sequence streams"),
     "C12": dict(
         text="Lean theorem C12_preserves: for every instruction semantics satisfying the local laws, every well-delimited stream, every entry/label, all states and fuel, optimised = original; label-restart and line theorems; rule table proved equal to the one regenerated from peephole.rs; model tied to the real peephole_optimize on exhaustive windows, random streams and every fixture function; implementation output judged by an executable free-semantics Spec",
         note="Trusted: Lean kernel + the three standard axioms, translator rows for byte_code.rs/peephole.rs, hand-written optimiser model (checked against peephole_optimize through the cfg hook), free semantics as Spec; the local laws are proved for the free semantics, not for ops.rs",
         technique="Lean 4 semantic-preservation proof (generic over instruction semantics) + generated rule table + differential windows/streams"),
     "C18": dict(
-        text="Lean theorems: encoder line table aligned with code bytes for every instruction list (generated per-helper emit tables), saved ip-1 lies inside the suspended instruction incl. its cache slot, the optimiser keeps slots behind their owners, the backtrace captured by an unwind lists exactly the frames between raise and catching frame innermost first, the outcome->status table is total; witnesses for the traceback-line defect; line tables of every dumped function recomputed by the model; generated call-chain programs with randomised line layout judged by an executable Lean Spec and the exact Lines model",
+        text="Lean theorems: encoder line table aligned with code bytes for every instruction list (generated per-helper emit tables), saved ip-1 lies inside the suspended instruction incl. its cache slot, the optimiser keeps slots behind their owners, the backtrace captured by an unwind lists exactly the frames between raise and catching frame innermost first, the outcome->status table is total and faithful also for exits and errors that cross any number of native callbacks and for compile errors of imported modules, a nested interpreter loop only runs handlers above its bottom frame; witnesses for the one open traceback-line defect (D181; D182-D185 repaired in /repo); line tables of every dumped function recomputed by the model; generated call-chain programs with randomised line layout judged by an executable Lean Spec and the exact Lines model",
         note="Trusted: Lean kernel + standard axioms, translator rows (encoder helpers, run status), hand-written unwinding model (tied by the call-chain stream), release harness build; which token's line the compiler attaches is sampled, not proved",
         technique="Lean 4 proofs about the line-table encoder and the unwinding machine + generated tables + Spec/model/implementation stream"),
     "C01": dict(
@@ -56,8 +56,8 @@ CLAIMED = {
         note="Trusted: Lean kernel (axioms propext, Quot.sound), translate_c04.py, hand-written handler machine and lowering skeleton (tied by the streams), probe and compile-log hooks; the repaired lowering being balanced for all statements is sampled, not proved; natives' own error propagation is not modelled (known finding D12 family)",
         technique="Lean 4 proofs about the handler machine and verified flow checkers + generated tables + Spec-interpreter program stream"),
     "C05": dict(
-        text="Lean theorems on the allocator model for every heap, mutator history and collection schedule: marking = reachability (with the model's own fuel), a collection (nursery or full) keeps every reachable object owned with its payload untouched, and along every valid history under any schedule everything the mutator can reach is still owned (C05_no_live_object_freed); random mutator/collector histories against the real Allocator judged by a reachability monitor and replayed through the model; programs and fixtures under many collection schedules must behave identically",
-        note="Trusted: Lean kernel + standard axioms, hand-written allocator model (alloc stream), allocator hooks; the VM root set and the natives' push_root discipline are outside the model and covered only by the schedule stream; observational equivalence of two schedules is not proved (only its safety core)",
+        text="Lean theorems on the allocator model for every heap, mutator history and collection schedule: marking = reachability (with the model's own fuel), a collection (nursery or full) keeps every reachable object owned with its payload untouched, and along every valid history under any schedule everything the mutator can reach is still owned (C05_no_live_object_freed); random mutator/collector histories against the real Allocator judged by a reachability monitor and replayed through the model; by kernel evaluation over the regenerated table of every `impl Trace` every field that can reach a managed object is marked by a total form (explicit, pinned exception list), the collection phases/sweeps/threshold text are pinned by generated rows; programs (generated, object-zoo, fixtures) under many collection schedules in both value representations must behave identically",
+        note="Trusted: Lean kernel + standard axioms, hand-written allocator model (alloc stream), allocator hooks, translate_trace.py (field/type classification whitelist, reasons of the exception list reviewed by hand); the natives' push_root discipline is outside the model and covered only by the schedule stream; observational equivalence of two schedules is not proved (only its safety core)",
         technique="Lean 4 invariant proof over mutator/collector histories + allocator correspondence stream + schedule differential"),
     "C08": dict(
         text="Lean theorems on an exact executable scheduler model: state-machine invariants for every network and reachable state, deadlock only with an empty run queue, exit iff main returned, launch passes arguments, only activate/unblock can assert, producer/consumer family by induction with the D4 exclusion stated exactly; kernel-evaluated witnesses for D4/D5/D17/D18 and C08_full_false; generated FiberState assertion table; random networks as model input and Laythe programs, judged by the exact model and by a Lean search over the abstract process network",
@@ -68,8 +68,8 @@ CLAIMED = {
         note="Trusted: as C05; the single entry point (every string allocation goes through manage_str) is an assumption of the model",
         technique="Lean 4 invariant proof over histories + allocator correspondence stream + schedule differential on string programs"),
     "C15": dict(
-        text="Lean theorems: scanner total on every input (one final EOF, tokens inside the input, disjoint, increasing, unterminated strings become error tokens), every declaration-loop iteration incl. synchronize consumes a token so parsing terminates, by decide over the regenerated table every u8/u16 narrowing is guarded or explicitly listed as unguarded (each listed one proved unguarded and tested for reachability), a clean resolver run implies the compiler reaches no lookup panic for every scoping-event sequence (AST level inside a decidable envelope with witnesses at its boundary); scanner model vs real diagnostics, 15 malformed-input families through compile-only and run paths judged by outcome rules, contract stream, boundary counts, nesting depths, REPL sessions",
-        note="Trusted: Lean kernel + standard axioms, translate_c15.py, hand-written scanner/loop/contract models; the parser grammar (~2300 lines) and code generation are sampled by the malformed stream, not modelled; known findings D21, D151-D155",
+        text="Lean theorems: scanner total on every input (one final EOF, tokens inside the input, disjoint, increasing, unterminated strings become error tokens), every declaration-loop iteration incl. synchronize consumes a token so parsing terminates, by decide over the regenerated table every u8/u16 narrowing is guarded or saturating (only handler_slots, a TODO in the source, is listed as unguarded), a clean resolver run implies the compiler reaches no lookup panic for every scoping-event sequence and, at AST level, for every program of the skeleton (event order of for/try/catch tied by a generated table), the parser's loop depth is balanced, never underflows and break/continue are accepted only inside loops; scanner model vs real diagnostics, 15 malformed-input families through compile-only and run paths judged by outcome rules, contract stream, boundary counts, nesting depths, REPL sessions",
+        note="Trusted: Lean kernel + standard axioms, translate_c15.py, hand-written scanner/loop/contract models; the parser grammar (~2300 lines) and code generation are sampled by the malformed stream, not modelled; D21, D31, D151-D155 repaired in /repo (no open finding)",
         technique="Lean 4 totality/progress proofs for scanner and declaration loop + decide over generated narrowing table + malformed-input outcome stream"),
     "C16": dict(
         text="Lean theorems: signature check soundness for all arities and argument lists; by decide +kernel over the table of all natives regenerated from laythe_lib, every body unwrap site is justified by the declared signature, receiver convention or a dominating test, except an explicit list of known-bad rows each proved to really fail; committed lists of callback-result unwraps and stack-less callback natives; frame limit invariant with the exact bypass witness; non-callable dispatch table; real signature checker compared with the model, native x argument-kind matrix through real programs in isolated workers (debug and release), recursion shapes, error-in-handler shapes",
@@ -84,7 +84,7 @@ CLAIMED = {
         note="Trusted: Lean kernel + standard axioms, hand-written REPL model, vh_repl harness; D13 is a known finding (C19_full false on the pinned model)",
         technique="Lean 4 invariant proofs over REPL sessions + session/concatenation differential stream"),
     "C20": dict(
-        text="Lean theorems (same allocator model): after every collection bytes_allocated = sum of owned sizes, nursery empty, next_gc = 2x; after a full collection in any reachable state the allocator owns exactly the reachable objects and the intern table is exactly the reachable strings; only garbage is reclaimed; witness for the repaired nursery accounting defect; allocator stream judged by an accounting monitor, layout-checking global allocator (size/alignment of every release), stats after forced full collections of real programs",
+        text="Lean theorems (same allocator model): after every collection bytes_allocated = sum of owned sizes, nursery empty, next_gc = 2x; after a full collection in any reachable state the allocator owns exactly the reachable objects and the intern table is exactly the reachable strings; only garbage is reclaimed; witness for the repaired nursery accounting defect; allocator stream judged by an accounting monitor, layout-checking global allocator (size/alignment of every release; every owned block's accounted size vs the size it was obtained with), stats after forced full collections of real programs",
         note="Trusted: as C05 plus the checking GlobalAlloc wrapper of the harness; bounded-heap corollary (C20_bounded_heap) not proved",
         technique="Lean 4 accounting proofs on the allocator model + allocator correspondence stream + layout-checking allocator"),
 }
